@@ -131,6 +131,12 @@ class IntMap(Maker):
     def __call__(self, eng, name):
         return HMap(name), []
 
+    def examples(self, rng, n):
+        out = [{}]
+        for _ in range(12):
+            out.append(dict((rng.choice([0, 2, 3, 4, 6, 8, 9, 12]), rng.randint(0, 40)) for _ in range(rng.randint(1, 4))))
+        return out
+
 
 class Const(Maker):
     def __init__(self, v):
